@@ -107,7 +107,14 @@ impl<'a> G<'a> {
     /// or union only under optional / list / set / map
     fn field_ty(&mut self, owner: usize, depth: usize) -> Value {
         let t = self.ty(depth, false);
-        self.guard(owner, t)
+        let t = self.guard(owner, t);
+        if self.rng.chance(1, 6) && t["type"] != "external" {
+            // an imported type whose fallback is an optional / a collection / anything: generated code uses the fallback
+            let n = self.rng.below(3);
+            json!({"type": "external", "external": {"externalReference": {"name": format!("ExtWrap{}", n), "package": "java.util"}, "fallback": t}})
+        } else {
+            t
+        }
     }
     fn guard(&mut self, owner: usize, t: Value) -> Value {
         // direct (unboxed by the language) containment of types with index >= owner could close a cycle with
